@@ -3,6 +3,7 @@ import contextlib, io, json, logging, os, re
 from ..core import Violation
 
 ID = 'C11'
+PROP_FILES = ['C11', 'C11Elided']
 MODULES = ['OFModel.Config.Grammar', 'OFModel.Config.Base', 'OFModel.Config.IO', 'OFModel.Config.Webvis', 'OFModel.Config.REST', 'OFModel.Config.Util', 'OFModel.Config.MQTTOut']
 RULE = ('(a) grammar functions: random strings over the grammar alphabet (",;>!= no- identifiers digits . e - quotes brackets, ASCII and Unicode blanks), '
         'structured-valid and malformed, fed to split_commas_maybe / json_getval / parse_topics (mapping True/False/None, max_topics None/1/2/3) / parse_options '
